@@ -7,6 +7,8 @@ use simple_sds::int_vector::IntVector;
 use simple_sds::ops::{Access, Pack, Pop, Push, Resize, Vector};
 use simple_sds::raw_vector::{AccessRaw, PopRaw, PushRaw, RawVector};
 
+thread_local! { static EXTEND_TURN: std::cell::Cell<usize> = std::cell::Cell::new(0); }
+
 pub enum AnyVec {
     Int(IntVector),
     Raw(RawVector),
@@ -41,7 +43,7 @@ pub fn construct(c: &Value) -> AnyVec {
         "from_vec" | "from_iter" => {
             let vs: Vec<u64> = c["vs"].as_array().unwrap().iter().map(set_to_u64).collect();
             let iter = c["op"] == json!("from_iter");
-            macro_rules! mk { ($t:ty) => {{ let v: Vec<$t> = vs.iter().map(|x| *x as $t).collect(); if iter { v.into_iter().collect::<IntVector>() } else { IntVector::from(v) } }} }
+            macro_rules! mk { ($t:ty) => {{ let v: Vec<$t> = vs.iter().map(|x| *x as $t).collect(); if iter { let turn = EXTEND_TURN.with(|t| { t.set(t.get() + 1); t.get() }); if turn % 2 == 0 { v.into_iter().collect::<IntVector>() } else { v.into_iter().filter(|_| true).collect::<IntVector>() } } else { IntVector::from(v) } }} }
             AnyVec::Int(match us(c, "w") { 8 => mk!(u8), 16 => mk!(u16), 32 => mk!(u32), 64 => if vs.len() % 2 == 0 { mk!(u64) } else { mk!(usize) }, w => panic!("TOOL-ERROR: no item type of width {}", w) })
         },
         "new_raw" => AnyVec::Raw(RawVector::new()),
@@ -67,7 +69,9 @@ impl AnyVec {
                 "pack" => { v.pack(); unit() },
                 "extend" => {
                     let vs: Vec<u64> = c["vs"].as_array().unwrap().iter().map(set_to_u64).collect();
-                    v.extend(vs);
+                    // alternately an exact-size iterator and one whose size_hint has lower bound 0
+                    let turn = EXTEND_TURN.with(|t| { t.set(t.get() + 1); t.get() });
+                    if turn % 2 == 0 { v.extend(vs); } else { v.extend(vs.into_iter().filter(|_| true)); }
                     unit()
                 },
                 "count_ones" => num(AsRef::<RawVector>::as_ref(v).count_ones()),
